@@ -21,7 +21,8 @@ open EinoV.Gen
 /-- The facts regenerated from the source, as the model's parameter. -/
 def gen : Facts :=
   { typeCmpIdentity := FactsC16.typeCmpIdentity, strip := FactsC16.strip,
-    passSubPathIsError := FactsC16.passSubPathIsError, nestedCopies := FactsC16.nestedCopies }
+    passSubPathIsError := FactsC16.passSubPathIsError, nestedCopies := FactsC16.nestedCopies,
+    designateCopies := FactsC16.designateCopies }
 
 /-! ## property theorems (instantiated with the facts regenerated from /repo) -/
 
@@ -199,7 +200,25 @@ theorem no_leak (store : List Opt) (cs : List Call) :
     runCalls gen store cs = (cs.map (fun c => run gen c.g (pick store c.ixs)), store) :=
   runCalls_copies gen_C cs store
 
+/-- **designate_paths_exact.** Whatever sequence of `DesignateNode` / `DesignateNodeWithPath`
+    calls derives Options from shared bases (any sources, any order, any number of siblings
+    derived from the same base, any capacity-growth rule of `append`), every constructed Option
+    designates — when looked at after the whole construction — exactly its base's paths
+    followed by the paths added to it. Together with `option_reaches_iff` (whose `opts` are
+    these values): an Option reaches only the nodes it was designated to, no matter what else
+    was derived from the same base. -/
+theorem designate_paths_exact (grow : Nat → Nat → Nat) (ops : List BuildOp) :
+    builtPaths gen.designateCopies grow ops = specPaths ops := by
+  have h : gen.designateCopies = true := by decide
+  rw [h]; exact builtPaths_copies grow ops
+
 /-! ## non-vacuity -/
+
+example : specPaths [.base, .designate 0 [["a"]], .designate 1 [["b"]], .designate 2 [["c"]],
+      .designate 3 [["d"]], .designate 3 [["sub", "e"], ["f"]]]
+    = [[], [["a"]], [["a"], ["b"]], [["a"], ["b"], ["c"]], [["a"], ["b"], ["c"], ["d"]],
+       [["a"], ["b"], ["c"], ["sub", "e"], ["f"]]] := by decide
+
 
 deriving instance DecidableEq for Except
 
@@ -244,6 +263,15 @@ theorem leak_without_copy :
       [{ ty := 1, vals := [1], handlers := [], paths := [["sub", "in"]] }]
       [⟨exG, [0]⟩, ⟨exG, [0]⟩]).1.map (fun r => match r with | .ok _ => true | .error _ => false)
       = [true, false] := by decide
+
+/-- With `o.paths = append(o.paths, path...)` on the value receiver (no copy), two Options
+    derived from one base whose `paths` has spare capacity share a cell: deriving the second
+    rewrites the first (base = a,b,c with cap 4; `o1 = base+d`, `o2 = base+e` ⇒ o1 = a,b,c,e). -/
+theorem designate_in_place_aliases :
+    builtPaths false goGrow [.base, .designate 0 [["a"]], .designate 1 [["b"]],
+        .designate 2 [["c"]], .designate 3 [["d"]], .designate 3 [["e"]]]
+      = [[], [["a"]], [["a"], ["b"]], [["a"], ["b"], ["c"]], [["a"], ["b"], ["c"], ["e"]],
+         [["a"], ["b"], ["c"], ["e"]]] := by decide
 
 /-- Without the type test an option reaches nodes of another type. -/
 theorem wrong_type_reaches_without_test :
